@@ -18,9 +18,11 @@ def run(ck, replay=None):
     ck.cov['rule'] = ('TLC evaluates Resolve.tla for every subset of {private, alias, function, builtin, external} defined for a name, every alias target '
                       '(a builtin with arguments, the name itself, another name) and every subset of {private, alias, function, external} defined for that other '
                       'name; each row is set up in the real interpreter (private/function/alias definitions, an executable on $PATH, the builtin '
-                      '`escape` as the builtin case), the name is run and the definition that answered is compared with the table.  '
+                      '`escape` as the builtin case), the name is run and the definition that answered is compared with the table.  Across modules: a public function '
+                      'of module A runs the name while the caller is a program of another module B with or without a private of that name: the private of A, else alias, '
+                      'function, external answers - never the private of B.  '
                       'non-trivial = at least two definitions or an alias; distinct = different rows.')
-    ck.assumptions += ['the caller is inside the module that defined the private (each program is its own module); a caller in another module is not exercised',
+    ck.assumptions += ['each program is a module of its own; the cross-module rows define module A by a program run before the calling program (mxh run-programs `pre`)',
                        'the builtin case uses the name `escape`; other rows use fresh names']
     wd = os.path.join(ck.scratch, 'gen')
     r = common.tlc('Resolve', 'MCResolve.cfg', wd, workers=1, timeout=600)
@@ -109,6 +111,54 @@ def run(ck, replay=None):
                 nontriv.add(key)
                 if len(ck.cov['samples']) < 3 and c['target'] != 'out':
                     ck.sample({'src': src, 'answered': got, 'rule': c['runs']})
+    # ---- across modules (xcases.ndjson): module A (a program of its own) defines the public function pubN whose body runs
+    # the name, plus A's private of that name; the calling program is another module, with or without its own private
+    xcases = common.read_ndjson(os.path.join(wd, 'xcases.ndjson'))
+    xjobs = []
+    xmeta = {}
+    for c in xcases:
+        cid += 1
+        defs = set(c['defs'])
+        name = 'xcmd%d' % cid
+        mod_a = ['function pub%d { %s a; out }' % (cid, name)]
+        clean = ['!function pub%d' % cid]
+        if 'private' in defs:
+            mod_a.append('private %s { out privA }' % name)
+        main = []
+        if 'function' in defs:
+            main.append('function %s { out fn }' % name)
+            clean.append('!function %s' % name)
+        if 'alias' in defs:
+            main.append('alias %s=out alias' % name)
+            clean.append('!alias %s' % name)
+        if 'external' in defs:
+            script(os.path.join(bindir, name), 'ext')
+        if c['privB']:
+            main.append('private %s { out privB }' % name)
+        main += ['pub%d' % cid, 'out rc-marker'] + clean
+        xjobs.append({'id': cid, 'pre': ['\n'.join(mod_a)], 'src': '\n'.join(main), 'timeout_ms': 20000})
+        xmeta[cid] = (c, '# module A\n' + '\n'.join(mod_a) + '\n# module B\n' + '\n'.join(main))
+    xres = prog.run_programs(ck, xjobs, shards=4, tag='c22x')
+    xwant = {'private': 'privA', 'alias': 'alias a', 'function': 'fn', 'external': 'ext'}
+    for cid_, (c, src) in xmeta.items():
+        x = xres.get(cid_)
+        ck.cov['evaluations'] += 1
+        key = 'xmod defs=%s privB=%s' % ('+'.join(sorted(c['defs'])) or '-', c['privB'])
+        if x is None or x['status'] != 'done':
+            ck.violation('crash-or-hang:' + key, 'program crashed or hung: %s' % (x and x['status']), {'src': src})
+            continue
+        r = x['runs'][0]
+        first = r['out'].decode('utf-8', 'replace').split('\n')[0]
+        err = r['err'].decode('utf-8', 'replace')
+        ok = (first == '' and err != '') if c['runs'] == 'error' else first == xwant[c['runs']]
+        if not ok:
+            ck.violation(key, 'a public function of module A runs the name, called from module B: answered %r; rule: %s' % (first or 'error', c['runs']),
+                         {'src': src, 'stderr': err[:400]})
+        else:
+            ck.cov['traces_validated_against_impl'] += 1
+            nontriv.add(key)
+            if c['privB'] and 'private' in c['defs'] and sum(1 for s_ in ck.cov['samples'] if 'module A' in s_.get('src', '')) < 1:
+                ck.sample({'src': src, 'answered': first, 'rule': c['runs']})
     ck.cov['unjudged_executed'] = unjudged
     ck.cov['distinct_nontrivial'] = len(nontriv)
     ck.cov['exhaustive'] = True
